@@ -16,6 +16,7 @@ macro_rules! dispatch {
     ($name:expr, $f:ident ( $($args:expr),* )) => {
         match $name {
             "drive" => $f::<engines::drive::Drive>($($args),*),
+            "reverse" => $f::<engines::reverse::Reverse>($($args),*),
             other => {
                 eprintln!("unknown engine {}", other);
                 std::process::exit(2);
@@ -24,7 +25,7 @@ macro_rules! dispatch {
     };
 }
 
-const ENGINES: &[&str] = &["drive"];
+const ENGINES: &[&str] = &["drive", "reverse"];
 
 fn info_of<E: Engine>() -> EngineInfo {
     EngineInfo { name: E::NAME, prop: E::PROP, rule: E::RULE, real: E::REAL, stub: E::STUB }
@@ -38,7 +39,8 @@ fn engine_info(name: &str) -> EngineInfo {
 fn plan_for(prop: &str, tier: Tier) -> Vec<(&'static str, u64)> {
     let q = tier == Tier::Quick;
     match prop {
-        "C15" => vec![("drive", if q { 40_000 } else { 4_000_000 })],
+        "C15" => vec![("drive", if q { 200_000 } else { 10_000_000 })],
+        "C02" => vec![("reverse", if q { 40_000 } else { 4_000_000 })],
         _ => vec![],
     }
 }
